@@ -116,7 +116,7 @@ DECODERS = {
     "ascii": dec_char, "utf8": dec_utf8,
     "utf16be": dec_utf16("big"), "utf16le": dec_utf16("little"),
     "utf32be": dec_utf32("big"), "utf32le": dec_utf32("little"),
-    "uint8": dec_uint(1, "big"),
+    "uint8": dec_uint(1, "big"), "uint8m": dec_uint(1, "big"),
     "uint16be": dec_uint(2, "big"), "uint16le": dec_uint(2, "little"),
     "uint32be": dec_uint(4, "big"), "uint32le": dec_uint(4, "little"),
     "uint64be": dec_uint(8, "big"), "uint64le": dec_uint(8, "little"),
@@ -474,6 +474,9 @@ def build_specs(tier, seed, fam_rules, tmpdir):
     pp("uint8", None, [])
     pp("uint8", None, [ALL])
     pp("uint8", None, [ALL, [0x00, 0xFF]])
+    # ---- uint8, every mask value 0..255 (512 generated rules): all byte values
+    pp("uint8m", None, [])
+    pp("uint8m", None, [ALL])
     # ---- uint16: all values
     for fam in ("uint16be", "uint16le"):
         pp(fam, None, [])
@@ -872,7 +875,7 @@ def _run(ctx, model, impl, tmpdir, t0):
               rule=("%d real rules in %d families (ascii+abnf classes, string/istring, utf8, utf16/32 be+le, uint8/16/32/64 be+le incl. mask_*) x %d specs = %d inputs "
                     "(exact-size heap buffers; per-position byte alphabets enumerated identically by harness, extracted model and oracle; digests compared per spec). "
                     "quick: all 0/1/2-byte strings, 26^3/26^4/26^5 RFC-3629 class-boundary products, all truncations, boundary scalar values incl. overlong forms, all 16-bit units, "
-                    "16^3..16^5 UTF-16 and 12^4 UTF-32 boundary lattices, all byte values x 17 uint8 rules (9 masks), all/lattice uint16, lattices + rule constants +-1/bit flips for uint32/64; "
+                    "16^3..16^5 UTF-16 and 12^4 UTF-32 boundary lattices, all byte values x 17 uint8 rules + 512 generated rules covering every 8-bit mask, all/lattice uint16, lattices + rule constants +-1/bit flips for uint32/64; "
                     "thorough adds all 3-byte, all 4-byte F0..F7 sequences, all unit pairs around the surrogate blocks, every UTF-32 value <= 0x11FFFF, 2^20 seeded 32-bit units, 2^18 seeded uint32/64 values. "
                     "non-trivial = observation where the decoder produced a unit or the rule matched") % (nrules, len(fam_rules), len(specs), ncases),
               samples=samples[:12], exhaustive=False, specs=len(specs), inputs=ncases, rules=nrules, run_seconds=round(t_run, 1),
